@@ -1,2 +1,61 @@
-(* C03 -- placeholder *)
-Theorem C03_placeholder : True. Proof. exact I. Qed.
+(* C03 -- every frame the client writes is a valid client frame that round-trips.  Statements only. *)
+From Coq Require Import List NArith.
+From Coq.Strings Require Import Byte.
+From Model Require Import Bytes Frame Conn.
+From Proofs Require Import FrameFacts ApiFacts.
+Import ListNotations.
+Open Scope N_scope.
+
+(* Frame.build against the reference decoder of RFC 6455 section 5.2 (which refuses unmasked frames and non-minimal
+   length encodings): for every opcode, RSV1 flag, 4-byte key and payload below 2^63 bytes, the bytes decode to exactly
+   one frame with FIN set, RSV2/RSV3 clear, that key, and -- after unmasking -- the original payload; nothing trails *)
+Theorem C03_build_roundtrip : forall op rsv1 key payload,
+  length key = 4%nat -> op < 16 -> blen payload < 9223372036854775808 ->
+  server_decode (build op rsv1 key payload) = Some (client_frame op rsv1 key payload, []).
+Proof. exact build_roundtrip. Qed.
+Print Assumptions C03_build_roundtrip.
+
+(* an accepted send performs exactly one sendall, of Frame.build with the next masking key *)
+Theorem C03_accepted_send_writes_one_frame : forall c op rsv1 p c',
+  send_frame c op rsv1 p = (c', None) -> k_tr c' = TWrite (build op rsv1 (next_key c) p) :: k_tr c.
+Proof. exact send_frame_accepted. Qed.
+Print Assumptions C03_accepted_send_writes_one_frame.
+
+Theorem C03_accepted_call_decodes : forall c op p z c',
+  keys_ok c -> op < 16 -> blen p < 9223372036854775808 ->
+  (k_deflate c = None \/ z = false) -> send_data c op p z = (c', None) ->
+  exists w, k_tr c' = TWrite w :: k_tr c /\ server_decode w = Some (client_frame op false (next_key c) p, []).
+Proof. exact accepted_call_decodes. Qed.
+Print Assumptions C03_accepted_call_decodes.
+
+(* RSV1 is set exactly when compression was negotiated and requested; the deflate call is logged before the write *)
+Theorem C03_rsv1_only_when_negotiated : forall c op p d c',
+  k_deflate c = Some d -> send_data c op p true = (c', None) ->
+  exists z, k_tr c' = TWrite (build op true (next_key c) z) :: TDeflate (k_zout c) p :: k_tr c /\
+            z = match k_ctape c with z0 :: _ => z0 | [] => [] end.
+Proof. exact send_data_compressed. Qed.
+Print Assumptions C03_rsv1_only_when_negotiated.
+
+(* calls that cannot be sent raise ValueError and leave the whole state (hence the write log) unchanged *)
+Theorem C03_oversize_control_refused : forall c p, 125 < blen p ->
+  api_call c (CSendPing p) = (c, Some XValueError) /\ api_call c (CSendPong p) = (c, Some XValueError).
+Proof. exact control_oversize_refused. Qed.
+Print Assumptions C03_oversize_control_refused.
+
+Theorem C03_oversize_close_refused : forall c code reason,
+  k_closed c = false -> k_closing c = false -> 125 < blen (close_payload code reason) ->
+  api_call c (CClose code reason) = (c, Some XValueError).
+Proof. exact close_oversize_refused. Qed.
+Print Assumptions C03_oversize_close_refused.
+
+(* a call refused for any reason other than a transport failure writes nothing *)
+Theorem C03_refused_writes_nothing : forall c op rsv1 p c' x,
+  send_frame c op rsv1 p = (c', Some x) -> x <> XTransportFail -> k_tr c' = k_tr c.
+Proof. exact send_frame_refused. Qed.
+Print Assumptions C03_refused_writes_nothing.
+
+Example C03_nonvacuous :
+  server_decode (build OP_TEXT false [x01; x02; x03; x04] [x68; x69]) =
+    Some (client_frame OP_TEXT false [x01; x02; x03; x04] [x68; x69], []) /\
+  build OP_TEXT false [x01; x02; x03; x04] [x68; x69] = [x81; x82; x01; x02; x03; x04; x69; x6b].
+Proof. vm_compute. split; reflexivity. Qed.
